@@ -1231,6 +1231,10 @@ def run(ctx: Ctx):
     _t0 = __import__('time').time()
     ctx.extra["G_time_results"] = c08_hist.run_time_results(ctx, mods)
     ctx.extra.setdefault("phase_wall_seconds", {})["G"] = round(__import__('time').time() - _t0, 1)
+    # ---------------- part I: the same Julian date numbers under two scales
+    _t0 = __import__('time').time()
+    ctx.extra["I_scale_shadows"] = c08_hist.run_time_scale_shadows(ctx, mods)
+    ctx.extra.setdefault("phase_wall_seconds", {})["I"] = round(__import__('time').time() - _t0, 1)
     # ---------------- part H: time arrays made from time arrays after earlier indexing / reads
     _t0 = __import__('time').time()
     ctx.extra["H_time_derivations"] = c08_hist.run_time_derivations(ctx, mods, ctx.thorough)
